@@ -126,11 +126,14 @@ class AsyncDriver(BaseDriver):
         """
         self._post_open_closing_log(closing=True)
 
-        if self.on_close:
-            await self.on_close(self)
-
-        self.transport.close()
-        self.channel.close()
+        try:
+            if self.on_close:
+                await self.on_close(self)
+        finally:
+            # always release the transport and the channel log, even if the on_close callable
+            # raised (i.e. because the device is already gone or an operation timed out)
+            self.transport.close()
+            self.channel.close()
 
         self._post_open_closing_log(closing=True)
 
